@@ -357,6 +357,25 @@ def r20_5(F, R):
     else:
         R.violation("R20.5", "get_internal/walk", "get_internal does not walk the whole collision chain (no loop over `next`): a string whose hash collides with "
                     "an earlier one is not found and gets a second key", loc)
+    # (d) the de-duplication map is only filled through populate_dedup_map (which keeps colliding keys chained)
+    n_ins = 0
+    for fn in F.fns.values():
+        if not fn.name.startswith(IN + "::") and not fn.name.startswith("<" + IN + "::") or "::tests::" in fn.name:
+            continue
+        for bi, t in fn.calls():
+            cn = strip_generics(callee_name(t) or "")
+            if "HashMap" in cn and cn.split("::")[-1] in ("insert", "entry", "extend", "get_mut", "remove") and t["args"]:
+                p = op_place(t["args"][0])
+                ty = fn.local_ty(p["l"]) if p is not None and not p["p"] else ""
+                if "interner::LinkedList<" in ty:
+                    n_ins += 1
+                    who = strip_generics(fn.name)
+                    if who == IN + "::populate_dedup_map":
+                        R.ok("R20.5", "dedup-map/%s" % cn.split("::")[-1], "in populate_dedup_map", fn.loc(t), how="who-may-write")
+                    else:
+                        R.violation("R20.5", "dedup-map/%s@%s" % (cn.split("::")[-1], who.replace(IN + "::", "")), "%s changes the de-duplication map directly with `%s`: "
+                                    "only populate_dedup_map keeps strings with equal hashes chained, a plain insert overwrites the earlier ones" % (fn.name, cn.split("::")[-1]), fn.loc(t))
+    R.floor("R20.5", "writes to the de-duplication map", n_ins, 1)
     # (c)
     goi = _one(F, IN + "::Interner::get_or_intern")
     calls = {strip_generics(callee_name(t) or "").split("::")[-1]: bi for bi, t in goi.calls()}
@@ -399,8 +418,42 @@ def r20_6(F, R):
                         "mismatch): borders of borders are skipped, so the matcher reports wrong positions for patterns with nested borders" % nm, loc)
 
 
+def r20_7(F, R):
+    GM = "texcraft_stdext::collections::groupingmap"
+    R.rule("R20.7", "replaying the scoped map (iter_all): while IterAll::new walks the groups from the innermost outwards, the value a logged key has "
+                    "in a group is read from the *accumulated* key_to_val map (what all inner groups saved for it), looked up before the key's "
+                    "own entry is recorded; consulting only the adjacent inner group's log loses a key that was overwritten two or more groups "
+                    "further in")
+    fns = [f for f in F.fns.values() if strip_generics(f.name) == GM + "::IterAll::new"]
+    if len(fns) != 1:
+        raise AnchorError("R20.7: IterAll::new: %d matches" % len(fns))
+    fn = fns[0]
+    flow = Flow(fn)
+    gets, inserts = [], []
+    for bi, t in fn.calls():
+        n = strip_generics(callee_name(t) or "")
+        if "HashMap" in n and t["args"]:
+            og = flow.operand_origins(t["args"][0])
+            names = {fn.local_name(v) for k, v in og if k == "local"}
+            if "key_to_val" in names:
+                if n.endswith("::get"):
+                    gets.append(bi)
+                if n.endswith("::insert"):
+                    inserts.append(bi)
+    loc = "%s:%d" % (fn.file, fn.line)
+    if not inserts:
+        raise AnchorError("R20.7: IterAll::new never records into key_to_val")
+    dom = dominators(fn)
+    if gets and all(any(g in dom[i] for g in gets) for i in inserts):
+        R.ok("R20.7", "IterAll::new", "key_to_val.get dominates key_to_val.insert (%d/%d)" % (len(gets), len(inserts)), loc, how="dominator")
+    else:
+        R.violation("R20.7", "IterAll::new/accumulated-lookup", "IterAll::new records a key's entry without first looking the key up in the accumulated key_to_val map "
+                    "(%d lookups): the value replayed for an outer group is wrong when the key was overwritten in a non-adjacent inner group" % len(gets), loc)
+
+
 def run(F, R, tier):
     r20_1(F, R)
+    r20_7(F, R)
     r20_5(F, R)
     r20_6(F, R)
     r20_4(F, R)
